@@ -39,6 +39,11 @@ CLAIMS = {
    ref="§4 C06",
    note="Call graph VTA∘CHA with callback over-approximation, restricted to code linked into cmd/staticcheck; Go memory model for atomics/channels assumed; exemptions one per symbol in tables/c06_order.tsv. Observation (not decided): -f binary bytes differ between a cold and a warm run because encoding/gob assigns type ids process-globally; decoded content is identical.",
    technique="lock-held dominance + happens-before path queries on SSA, map-order taint with sort sanitisers, comparator-chain extraction"),
+ "C18": dict(
+   text="Decides the locking/once-only shape that parallel IR building relies on: guarded-by pairs are derived from the struct declarations and every guarded access is lock-held (here or at all call sites); Package.build runs only via buildOnce.Do; each memo table of shared functions is filled only on its own miss edge with the freshly created, task-owned, enqueued function and a hit registers a wait; every builder is iterated on all paths and iterate marks done before waiting; Function.build is cleared only by done. Necessary conditions for 'created exactly once, fully built when Build returns, race-free'; it does not compare IR across builds.",
+   ref="§4 C18",
+   note="Lock identity is by mutex field name within a function (path-insensitive about which object); Go memory model assumed; the task-graph wait algorithm itself is not decided.",
+   technique="guarded-by inference from declarations + lock-held dominance + guard-edge/must-pass path rules on SSA"),
 }
 
 NOT_APPLICABLE = {
